@@ -6,8 +6,8 @@ import cont
 MODEL_TARGETS = ["model/Container.vo", "model/VectoredWrite.vo"]
 COQ_TARGETS = ["props/C16.vo"]
 THEOREMS = [("C16", ["C16_schedule", "C16_nothing_lost", "C16_ok_complete", "C16_zero_or_hard", "C16_ok_only_benign",
-                     "C16_no_panic", "C16_independent", "C16_advance_slices"])]
-PROOF_FILES = ["proofs/VectoredWriteProofs.v", "props/C16.v"]
+                     "C16_no_panic", "C16_independent", "C16_advance_slices", "C16_writer_schedule", "C16_writer_error_surfaces"])]
+PROOF_FILES = ["proofs/VectoredWriteProofs.v", "props/C16.v", "proofs/WriterScheduleProofs.v", "proofs/ContainerProofs.v"]
 TRUSTED_BASE = [
     "Coq 8.16.1 kernel; no axioms (Print Assumptions: closed)",
     "hand-written model/VectoredWrite.v of vectored_write_polyfill.rs and of std's IoSlice::advance_slices, model/Container.v of writer/mod.rs; tied by the correspondence run (null codec: per-call outcomes, sink lengths, final bytes under every schedule)",
